@@ -379,6 +379,10 @@ pub struct CmdSpec {
     /// SubcommandCandidates callback kind for external subcommands (0 none)
     #[serde(default)]
     pub ext_candidates: u8,
+    /// external_subcommand_value_parser: 0 default (OsString), 1 String (rejects non-UTF-8),
+    /// 2 caller-supplied parser rejecting the raw values `bad` / `reject`
+    #[serde(default)]
+    pub ext_parser: u8,
 }
 
 impl CmdSpec {
@@ -789,6 +793,11 @@ pub fn build_cmd(s: &CmdSpec) -> Command {
             CmdSetting::NextLineHelp => c.next_line_help(true),
             CmdSetting::Hide => c.hide(true),
         };
+    }
+    match s.ext_parser {
+        1 => c = c.external_subcommand_value_parser(clap::value_parser!(String)),
+        2 => c = c.external_subcommand_value_parser(RejectParser { bad: vec!["bad".into(), "reject".into()] }),
+        _ => {}
     }
     if s.ext_candidates != 0 {
         let k = s.ext_candidates;
